@@ -72,6 +72,8 @@ def scenarios(tier):
             L.append("stray %s %s" % (fl, ep))
             L.append("stale %s %s" % (fl, ep))
             L.append("stale-pre %s %s" % (fl, ep))
+            L.append("stale-rebase %s %s" % (fl, ep))
+            L.append("leak2 %s %s" % (fl, ep))
             if ep in ("queryAdapter", "adapter_hook", "queryMultiAdapter", "lookup"):
                 L.append("leak %s %s" % (fl, ep))
             if ep in ("lookup", "lookupAll", "subscriptions"):
